@@ -299,6 +299,13 @@ class TranslatorC(Translator):
                 args = [self.from_expr(arg)
                         for arg in expr.args]
                 if expr.size <= self.NATIVE_INT_MAX_SIZE:
+                    if expr.op == "*":
+                        # uint8_t/uint16_t operands are promoted to int:
+                        # multiply as unsigned to avoid a signed overflow
+                        cast = "uint%d_t" % max(
+                            32, get_c_common_next_pow2(expr.size)
+                        )
+                        args = ["((%s)(%s))" % (cast, arg) for arg in args]
                     out = (" %s " % expr.op).join(args)
                     out = "((%s)&%s)" % (out, self._size2mask(expr.size))
                 else:
@@ -479,6 +486,12 @@ class TranslatorC(Translator):
                 self._size2mask(arg.size),
             )
                     for arg in expr.args]
+            if expr.op == "*":
+                # See the two operands case: multiply as unsigned
+                cast = "uint%d_t" % max(
+                    32, get_c_common_next_pow2(expr.size)
+                )
+                oper = ["((%s)%s)" % (cast, arg) for arg in oper]
             oper = str(expr.op).join(oper)
             return "((%s)&%s)" % (
                 oper,
